@@ -57,6 +57,7 @@ def parseOp? (ws : List String) : Option Op :=
       | [f, r] => (parseAuto? r).map fun r => (f, r)
       | _ => none) |>.map (.auto to)
   | ["send", f, t, c] => (parseCoins? c).map (.send f t)
+  | ["bsend", f, t, c] => (parseCoins? c).map (.bsend f t)
   | ["msend", f, outs] => ((splitList outs).mapM parseAddrCoins?).map (.msend f)
   | ["iosend", ins, t] => ((splitList ins).mapM parseAddrCoins?).map (.iosend · t)
   | ["accept", t, fs, p] => some (.accept t (splitList fs) (p = "perm=1"))
@@ -183,6 +184,12 @@ def check (accts : List Addr) (tainted invOk : Bool) (p : State) (op : Op) (ok :
             Ledger.bal c.bank a d - Ledger.bal p.bank a d =
               (if a = to then expReleased p.recs to froms d else 0) - (if a = h then expReleased p.recs to froms d else 0),
           "release_payment_wrong") ]
+    | .bsend f t amt =>
+      [ (accts.all fun a => ds.all fun d =>
+            Ledger.bal c.bank a d - Ledger.bal p.bank a d =
+              (if a = t then Coins.amountOf amt d else 0) - (if a = f then Coins.amountOf amt d else 0),
+          "bypass_delivery_wrong"),
+        (sameRecCoins p c ds, "bypass_touched_records") ]
     | .qadd to froms amt payer =>
       [ (accts.all fun a => ds.all fun d =>
             Ledger.bal c.bank a d - Ledger.bal p.bank a d =
